@@ -9,6 +9,7 @@ import (
 	"path/filepath"
 	"runtime"
 	"sort"
+	"strconv"
 	"strings"
 	"sync"
 	"sync/atomic"
@@ -114,6 +115,7 @@ func or(v, d int) int {
 //	sigterm-now    the same without waiting for WatchSignals
 //	stop           ask the main goroutine to call controler.Stop(), then hold likewise
 //	sigkill        SIGKILL this process
+//	sigkill-after:<us>  SIGKILL this process <us> microseconds later, while the goroutine goes on into the operation
 //	mark:<text>    append a line to the event file
 type Trigger struct {
 	Name  string   `json:"name"`
@@ -133,12 +135,14 @@ type ChildSpec struct {
 	Mode           string `json:"mode"`
 	ExpectFinished int    `json:"expect_finished"` // number of finish messages that mean "all work done"
 	// Quiesce (drain mode, local queue): instead of counting to ExpectFinished, wait until the queue is drained.
-	Quiesce      bool      `json:"quiesce"`
-	StaleClaimed int       `json:"stale_claimed"` // rows that were already CLAIMED before this run started
-	DeadlineS    int       `json:"deadline_s"`    // drain deadline, default 60
-	WatchdogS    int       `json:"watchdog_s"`    // hard cap of the parent on this run, default 60
-	Profile      bool      `json:"profile"`
-	Triggers     []Trigger `json:"triggers"`
+	Quiesce bool `json:"quiesce"`
+	// IgnoreOutlinks: quiescence does not wait for outlinks that are still in the producer's 5 s batch (they are lost at the stop).
+	IgnoreOutlinks bool      `json:"ignore_outlinks"`
+	StaleClaimed   int       `json:"stale_claimed"` // rows that were already CLAIMED before this run started
+	DeadlineS      int       `json:"deadline_s"`    // drain deadline, default 60
+	WatchdogS      int       `json:"watchdog_s"`    // hard cap of the parent on this run, default 60
+	Profile        bool      `json:"profile"`
+	Triggers       []Trigger `json:"triggers"`
 	// FallbackStop (signals mode): when no stopping trigger has fired FallbackMS after all work was done, SIGTERM anyway.
 	FallbackMS int `json:"fallback_ms"`
 }
@@ -337,7 +341,7 @@ func ChildMain() {
 		default:
 		}
 		c.event("work: %s finished=%d produced=%d added=%d deleted=%d", status, c.finished.Load(), c.produced.Load(), c.added.Load(), c.deleted.Load())
-		c.writeHits("hits.json")
+		c.writeHits("hits-prestop.json")
 		controler.Stop()
 		c.event("stop-returned")
 		c.writeHits("hits.json")
@@ -353,7 +357,7 @@ func (c *childState) waitQuiescent(deadline time.Duration) bool {
 			return true
 		case <-time.After(100 * time.Millisecond):
 		}
-		if c.produced.Load() != c.added.Load() || c.finished.Load() != c.deleted.Load() {
+		if (!c.spec.IgnoreOutlinks && c.produced.Load() != c.added.Load()) || c.finished.Load() != c.deleted.Load() {
 			continue
 		}
 		if ReactorTracked != nil && ReactorTracked() != 0 {
@@ -366,7 +370,7 @@ func (c *childState) waitQuiescent(deadline time.Duration) bool {
 			}
 		}
 		// the counters are read again: nothing moved while the queue was inspected
-		if c.produced.Load() == c.added.Load() && c.finished.Load() == c.deleted.Load() {
+		if (c.spec.IgnoreOutlinks || c.produced.Load() == c.added.Load()) && c.finished.Load() == c.deleted.Load() {
 			return true
 		}
 	}
@@ -447,6 +451,14 @@ func (c *childState) fire(t *Trigger, id string) {
 			c.event("SIGKILL")
 			syscall.Kill(os.Getpid(), syscall.SIGKILL)
 			select {}
+		case "sigkill-after":
+			// the kill lands inside the operation that follows the point (a library call): arg = delay in microseconds
+			us, _ := strconv.Atoi(arg)
+			c.event("SIGKILL in %d us", us)
+			go func() {
+				time.Sleep(time.Duration(us) * time.Microsecond)
+				syscall.Kill(os.Getpid(), syscall.SIGKILL)
+			}()
 		}
 	}
 }
